@@ -56,7 +56,7 @@ Record config := mkCfg {
   c_sf : list Z }.    (* denoms registered as superfluid assets *)
 
 Record lock := mkLock {
-  l_id : Z; l_owner : Z; l_denom : Z; l_amt : Z; l_dur : Z;
+  l_owner : Z; l_denom : Z; l_amt : Z; l_dur : Z;
   l_end : Z }.        (* 0 = not unlocking *)
 
 Inductive skind := Staking | Unstaking.       (* ".../superbonding/val" | ".../superunbonding/val" *)
@@ -64,7 +64,7 @@ Definition skind_eqb (a b : skind) : bool :=
   match a, b with Staking, Staking => true | Unstaking, Unstaking => true | _, _ => false end.
 
 Record synth := mkSynth {
-  y_lock : Z; y_kind : skind; y_denom : Z; y_val : Z;
+  y_kind : skind; y_denom : Z; y_val : Z;
   y_end : Z;          (* 0 for staking synthetic locks *)
   y_dur : Z }.
 
@@ -72,9 +72,9 @@ Record validator := mkVal { v_tokens : Z; v_shares : Z (* Dec raw *) }.
 
 Record state := mkSt {
   s_now : Z;
-  s_locks : list lock;                 (* ascending ids *)
+  s_locks : Z -> option lock;          (* lock store: id -> lock *)
   s_last : Z;                          (* lockup LastLockID *)
-  s_synths : list synth;
+  s_synths : Z -> list synth;          (* synthetic lock store: underlying lock id -> its synthetic locks *)
   s_conn : Z -> option (Z * Z);        (* lock id -> intermediary account (denom, validator) *)
   s_accs : list (Z * Z);               (* intermediary accounts (denom, validator), creation order *)
   s_deleg : Z -> Z -> option Z;        (* staking delegation shares (Dec raw) of account (denom, validator) *)
@@ -106,21 +106,12 @@ Definition upd3 (f : skind -> Z -> Z -> Z) (k : skind) (k1 k2 : Z) (x : Z) : ski
 Definition pair_eqb (a b : Z * Z) : bool := (fst a =? fst b) && (snd a =? snd b).
 Definition mem_pair (k : Z * Z) (l : list (Z * Z)) : bool := existsb (pair_eqb k) l.
 
-Fixpoint find_lock (id : Z) (ls : list lock) : option lock :=
-  match ls with
-  | [] => None
-  | l :: r => if l_id l =? id then Some l else find_lock id r
-  end.
-Fixpoint put_lock (l' : lock) (ls : list lock) : list lock :=      (* overwrite the lock with the same id *)
-  match ls with
-  | [] => []
-  | l :: r => if l_id l =? l_id l' then l' :: r else l :: put_lock l' r
-  end.
-Definition del_lock (id : Z) (ls : list lock) : list lock := filter (fun l => negb (l_id l =? id)) ls.
+Definition put_lock (st : state) (id : Z) (l : lock) : state := set_locks st (upd1 (s_locks st) id (Some l)).
+Definition del_lock (st : state) (id : Z) : state := set_locks st (upd1 (s_locks st) id None).
 
-Definition synth_is (id : Z) (k : skind) (d v : Z) (y : synth) : bool :=
-  (y_lock y =? id) && skind_eqb (y_kind y) k && (y_denom y =? d) && (y_val y =? v).
-Definition synths_of (id : Z) (ys : list synth) : list synth := filter (fun y => y_lock y =? id) ys.
+Definition synth_is (k : skind) (d v : Z) (y : synth) : bool :=
+  skind_eqb (y_kind y) k && (y_denom y =? d) && (y_val y =? v).
+Definition ids_upto (n : Z) : list Z := map Z.of_nat (seq 1 (Z.to_nat n)).
 
 (* ---- x/superfluid: osmo value of an LP amount (twap_price.go, superfluid_asset.go) ---- *)
 Definition is_sf (cfg : config) (d : Z) : bool := existsb (Z.eqb d) (c_sf cfg).
@@ -193,7 +184,7 @@ Definition force_undelegate_and_burn (st : state) (d v : Z) (amt : Z) : result s
 (* ---- x/lockup synthetic locks ---- *)
 (* GetSyntheticLockupByUnderlyingLockId: error when more than one *)
 Definition synth_by_lock (st : state) (id : Z) : result (option synth) :=
-  match synths_of id (s_synths st) with
+  match s_synths st id with
   | [] => Ok None
   | [y] => Ok (Some y)
   | _ => Err EOther
@@ -205,7 +196,7 @@ Definition create_synth (cfg : config) (st : state) (id : Z) (k : skind) (d v : 
   match found with
   | Some _ => Err ESynthExists
   | None =>
-    match find_lock id (s_locks st) with
+    match s_locks st id with
     | None => Err ELockNotFound
     | Some l =>
       do e <- (match k with
@@ -213,37 +204,36 @@ Definition create_synth (cfg : config) (st : state) (id : Z) (k : skind) (d v : 
                               else Ok (s_now st + c_unb cfg)
                | Staking => Ok 0
                end);
-      let st1 := set_synths st (s_synths st ++ [mkSynth id k d v e (c_unb cfg)]) in
+      let st1 := set_synths st (upd1 (s_synths st) id (s_synths st id ++ [mkSynth k d v e (c_unb cfg)])) in
       Ok (set_accum st1 (upd3 (s_accum st1) k d v (s_accum st1 k d v + l_amt l)))
     end
   end.
 
 (* DeleteSyntheticLockup(lockID, synthdenom) *)
 Definition delete_synth (st : state) (id : Z) (k : skind) (d v : Z) : result state :=
-  if negb (existsb (synth_is id k d v) (s_synths st)) then Err ESynthNotFound else
-  match find_lock id (s_locks st) with
+  if negb (existsb (synth_is k d v) (s_synths st id)) then Err ESynthNotFound else
+  match s_locks st id with
   | None => Err ELockNotFound
   | Some l =>
-    let st1 := set_synths st (filter (fun y => negb (synth_is id k d v y)) (s_synths st)) in
+    let st1 := set_synths st (upd1 (s_synths st) id (filter (fun y => negb (synth_is k d v y)) (s_synths st id))) in
     Ok (set_accum st1 (upd3 (s_accum st1) k d v (s_accum st1 k d v - l_amt l)))
   end.
 
 (* beginUnlock(lock, coins): [amt = None] is the empty coin list (whole lock).  Returns the id that is unlocking. *)
-Definition begin_unlock_core (st : state) (l : lock) (amt : option Z) : result (state * Z) :=
+Definition begin_unlock_core (st : state) (id : Z) (l : lock) (amt : option Z) : result (state * Z) :=
   if (match amt with Some x => l_amt l <? x | None => false end) then Err EExceeds else
   if negb (l_end l =? 0) then Err EAlreadyUnlocking else
+  let whole := Ok (put_lock st id (mkLock (l_owner l) (l_denom l) (l_amt l) (l_dur l) (s_now st + l_dur l)), id) in
   match amt with
   | Some x =>
-    if x =? l_amt l then
-      Ok (set_locks st (put_lock (mkLock (l_id l) (l_owner l) (l_denom l) (l_amt l) (l_dur l) (s_now st + l_dur l)) (s_locks st)), l_id l)
+    if x =? l_amt l then whole
     else
       (* SplitLock: the old lock keeps amt - x, a new lock (LastLockID + 1) takes x and starts unlocking *)
       let nid := s_last st + 1 in
-      let old := mkLock (l_id l) (l_owner l) (l_denom l) (l_amt l - x) (l_dur l) (l_end l) in
-      let new := mkLock nid (l_owner l) (l_denom l) x (l_dur l) (s_now st + l_dur l) in
-      Ok (set_last (set_locks st (put_lock old (s_locks st) ++ [new])) nid, nid)
-  | None =>
-      Ok (set_locks st (put_lock (mkLock (l_id l) (l_owner l) (l_denom l) (l_amt l) (l_dur l) (s_now st + l_dur l)) (s_locks st)), l_id l)
+      let old := mkLock (l_owner l) (l_denom l) (l_amt l - x) (l_dur l) (l_end l) in
+      let new := mkLock (l_owner l) (l_denom l) x (l_dur l) (s_now st + l_dur l) in
+      Ok (set_last (put_lock (put_lock st id old) nid new) nid, nid)
+  | None => whole
   end.
 
 (* ---- x/superfluid messages ---- *)
@@ -260,7 +250,7 @@ Definition already_sf_staking (st : state) (id : Z) : bool :=
 
 (* SuperfluidDelegate(sender, lockID, valAddr) *)
 Definition superfluid_delegate (cfg : config) (st : state) (sender id v : Z) : result state :=
-  match find_lock id (s_locks st) with
+  match s_locks st id with
   | None => Err ELockNotFound
   | Some l =>
     (* validateLockForSFDelegate *)
@@ -280,7 +270,7 @@ Definition superfluid_delegate (cfg : config) (st : state) (sender id v : Z) : r
 
 (* undelegateCommon + SuperfluidUndelegate *)
 Definition superfluid_undelegate (cfg : config) (st : state) (sender id : Z) : result state :=
-  match find_lock id (s_locks st) with
+  match s_locks st id with
   | None => Err ELockNotFound
   | Some l =>
     if negb (l_owner l =? sender) then Err ENotOwner else
@@ -297,7 +287,7 @@ Definition superfluid_undelegate (cfg : config) (st : state) (sender id : Z) : r
 
 (* unbondLock(lockId, sender, coins) *)
 Definition unbond_lock (st : state) (id sender : Z) (amt : option Z) : result (state * Z) :=
-  match find_lock id (s_locks st) with
+  match s_locks st id with
   | None => Err ELockNotFound
   | Some l =>
     if negb (l_owner l =? sender) then Err ENotOwner else
@@ -306,13 +296,13 @@ Definition unbond_lock (st : state) (id sender : Z) (amt : option Z) : result (s
     | None => Err ENotSuperfluidUsed
     | Some y =>
       if (y_end y =? 0) then Err EBondingLockup else       (* !synthLock.IsUnlocking() *)
-      begin_unlock_core st l amt                            (* BeginForceUnlock *)
+      begin_unlock_core st id l amt                         (* BeginForceUnlock *)
     end
   end.
 
 (* SuperfluidUndelegateAndUnbondLock(lockID, sender, amount) -> id of the unlocking lock *)
 Definition superfluid_undelegate_and_unbond (cfg : config) (st : state) (sender id amt : Z) : result (state * Z) :=
-  match find_lock id (s_locks st) with
+  match s_locks st id with
   | None => Err ELockNotFound
   | Some l =>
     if amt <? 0 then Err EPanic else
@@ -336,8 +326,8 @@ Definition superfluid_undelegate_and_unbond (cfg : config) (st : state) (sender 
   end.
 
 (* IncreaseSuperfluidDelegation, as called by the lockup hook AfterAddTokensToLock (errors are logged and dropped) *)
-Definition increase_sf_delegation (cfg : config) (st : state) (l : lock) (amt : Z) : state :=
-  match s_conn st (l_id l) with
+Definition increase_sf_delegation (cfg : config) (st : state) (id : Z) (l : lock) (amt : Z) : state :=
+  match s_conn st id with
   | None => st
   | Some (d, v) =>
     match sf_osmo_tokens cfg st d (if l_denom l =? d then amt else 0) with
@@ -350,20 +340,20 @@ Definition increase_sf_delegation (cfg : config) (st : state) (l : lock) (amt : 
 
 (* lockup AddTokensToLockByID(lockID, owner, coin) *)
 Definition add_tokens_to_lock (cfg : config) (st : state) (owner id amt : Z) : result state :=
-  match find_lock id (s_locks st) with
+  match s_locks st id with
   | None => Err ELockNotFound
   | Some l =>
     if negb (l_owner l =? owner) then Err ENotOwner else
     if amt <=? 0 then Err EPanic (* zero / negative top-ups are outside the modelled domain *) else
-    let l' := mkLock (l_id l) (l_owner l) (l_denom l) (l_amt l + amt) (l_dur l) (l_end l) in
-    let st1 := set_locks st (put_lock l' (s_locks st)) in
+    let l' := mkLock (l_owner l) (l_denom l) (l_amt l + amt) (l_dur l) (l_end l) in
+    let st1 := put_lock st id l' in
     do found <- synth_by_lock st1 id;
     let st2 := match found with
                | Some y => set_accum st1 (upd3 (s_accum st1) (y_kind y) (y_denom y) (y_val y)
                                                (s_accum st1 (y_kind y) (y_denom y) (y_val y) + amt))
                | None => st1
                end in
-    Ok (increase_sf_delegation cfg st2 l' amt)
+    Ok (increase_sf_delegation cfg st2 id l' amt)
   end.
 
 (* ---- epoch ---- *)
@@ -435,32 +425,41 @@ Definition epoch (cfg : config) (st : state) (ins : list (Z * minput)) (order : 
 (* ---- lockup end blocker pieces ---- *)
 Definition matured (st : state) (e : Z) : bool := negb (e =? 0) && (e <=? s_now st).
 
-(* DeleteAllMaturedSyntheticLocks: a failing DeleteSyntheticLockup panics *)
-Fixpoint delete_matured_synths (st : state) (ys : list synth) : result state :=
+(* DeleteAllMaturedSyntheticLocks: a failing DeleteSyntheticLockup panics.  [ys]: the synthetic locks of lock [id] when the
+   iteration reaches it; the outer loop runs over all lock ids ever issued *)
+Fixpoint delete_matured_in (st : state) (id : Z) (ys : list synth) : result state :=
   match ys with
   | [] => Ok st
   | y :: r =>
     if matured st (y_end y) then
-      match delete_synth st (y_lock y) (y_kind y) (y_denom y) (y_val y) with
-      | Ok st1 => delete_matured_synths st1 r
+      match delete_synth st id (y_kind y) (y_denom y) (y_val y) with
+      | Ok st1 => delete_matured_in st1 id r
       | Err _ => Err EPanic
       end
-    else delete_matured_synths st r
+    else delete_matured_in st id r
+  end.
+Fixpoint delete_matured_synths (st : state) (ids : list Z) : result state :=
+  match ids with
+  | [] => Ok st
+  | id :: r => do st1 <- delete_matured_in st id (s_synths st id); delete_matured_synths st1 r
   end.
 
 (* UnlockMaturedLock *)
 Definition unlock_matured_lock (st : state) (id : Z) : result state :=
-  match find_lock id (s_locks st) with
+  match s_locks st id with
   | None => Err ELockNotFound
   | Some l =>
     if l_end l =? 0 then Err ENotUnlocking else
     if s_now st <? l_end l then Err ENotMatured else
-    Ok (set_locks st (del_lock id (s_locks st)))
+    Ok (del_lock st id)
   end.
 
 (* WithdrawMaturedLocks (the bound of 1000 locks per block is not modelled) *)
 Definition withdraw_matured (st : state) : state :=
-  set_locks st (filter (fun l => negb (matured st (l_end l))) (s_locks st)).
+  set_locks st (fun id => match s_locks st id with
+                          | Some l => if matured st (l_end l) then None else Some l
+                          | None => None
+                          end).
 
 (* ---- operations ---- *)
 Inductive op :=
@@ -482,23 +481,23 @@ Definition step (cfg : config) (st : state) (o : op) : result (state * Z) :=
   | OLock owner d amt dur =>
       if (amt <=? 0) || (dur <? 0) then Err EPanic else
       let id := s_last st + 1 in
-      Ok (set_last (set_locks st (s_locks st ++ [mkLock id owner d amt dur 0])) id, id)
+      Ok (set_last (put_lock st id (mkLock owner d amt dur 0)) id, id)
   | OTopUp owner id amt => do st' <- add_tokens_to_lock cfg st owner id amt; Ok (st', 0)
   | ODelegate sender id v => do st' <- superfluid_delegate cfg st sender id v; Ok (st', 0)
   | OUndelegate sender id => do st' <- superfluid_undelegate cfg st sender id; Ok (st', 0)
   | OUnbondLock sender id => do r <- unbond_lock st id sender None; Ok (fst r, 0)
   | OUndelegateAndUnbond sender id amt => superfluid_undelegate_and_unbond cfg st sender id amt
   | OBeginUnlock sender id =>
-      match find_lock id (s_locks st) with
+      match s_locks st id with
       | None => Err ELockNotFound
       | Some l =>
         if negb (l_owner l =? sender) then Err ENotOwner else
-        if negb (match synths_of id (s_synths st) with [] => true | _ => false end) then Err EHasSynth else  (* HasAnySyntheticLockups *)
-        do r <- begin_unlock_core st l None; Ok (fst r, 0)
+        if negb (match s_synths st id with [] => true | _ => false end) then Err EHasSynth else  (* HasAnySyntheticLockups *)
+        do r <- begin_unlock_core st id l None; Ok (fst r, 0)
       end
   | OWithdraw id => do st' <- unlock_matured_lock st id; Ok (st', 0)
   | OAdvance dt => if dt <? 0 then Err EPanic else Ok (set_now st (s_now st + dt), 0)
-  | OCleanup => do st1 <- delete_matured_synths st (s_synths st); Ok (withdraw_matured st1, 0)
+  | OCleanup => do st1 <- delete_matured_synths st (ids_upto (s_last st)); Ok (withdraw_matured st1, 0)
   | OEpoch ins order => do st' <- epoch cfg st ins order; Ok (st', 0)
   end.
 
@@ -518,4 +517,4 @@ Definition vals_of (l : list (Z * validator)) : Z -> option validator :=
 Definition mults_of (l : list (Z * Z)) : Z -> Z :=
   fun d => match find (fun x => fst x =? d) l with Some x => snd x | None => 0 end.
 Definition init_state (t0 : Z) (vals : list (Z * validator)) (mults : list (Z * Z)) (supply offset bonded : Z) : state :=
-  mkSt t0 [] 0 [] (fun _ => None) [] (fun _ _ => None) (vals_of vals) (mults_of mults) (fun _ _ _ => 0) supply offset bonded.
+  mkSt t0 (fun _ => None) 0 (fun _ => []) (fun _ => None) [] (fun _ _ => None) (vals_of vals) (mults_of mults) (fun _ _ _ => 0) supply offset bonded.
